@@ -59,6 +59,14 @@ def run(tier, seed, res, lean):
     for b in col_bad[:3]:
         res.violations.append(Violation('c03-cache-hit-executes', b['msg'][:300], {'suite': 'S-COL', **b}))
     res.coverage['column_cases'] = sum(o[0]['column_cases'] for o in col_outs)
+    # decorated functions (`_wrap` / `_decorate` / `_loopback`) are compiled functions too: one call runs the forward fields, the wrapped
+    # function and the inverses once each, also for several outputs (S-CTX, at-most-once part)
+    from .. import suite_ctx
+    ctx_outs = pmap(suite_ctx.run_shard, [(seed * 2741 + i + 3, 30 if tier == 'quick' else 200) for i in range(shards)])
+    twice = [b for o in ctx_outs for b in o[1] if 'more than once' in b['msg']]
+    for b in twice[:3]:
+        res.violations.append(Violation('c03-decorated-twice', b['msg'][:300], {'suite': 'S-CTX', **b}))
+    res.coverage['decorated_cases'] = sum(o[0]['cases'] for o in ctx_outs)
     res.coverage.update({
         'evaluations': stats['calls'], 'distinct_nontrivial': stats['nontrivial'], 'rule': RULE,
         'programs': stats['cases'], 'disagreements_checked': len(bad), 'samples': [outs[0][3]],
@@ -67,7 +75,7 @@ def run(tier, seed, res, lean):
 
 
 def replay(obj, kind):
-    if obj.get('suite') in ('S-REL', 'S-COL'):
+    if obj.get('suite') in ('S-REL', 'S-COL', 'S-CTX'):
         return True, 'dataset pipelines are replayed by re-running the check with the same VERIF_SEED'
     from ..real_vm import RealVM
     case, steps = obj['case'], obj['steps']
